@@ -10,7 +10,7 @@ Init == stage = 0 /\ scn = <<>> /\ out = <<>>
 Pick(n, S) == stage = n /\ \E x \in S : scn' = Append(scn, x) /\ stage' = n + 1 /\ UNCHANGED out
 Finish(n, v) == stage = n /\ out' = v /\ stage' = 100 /\ UNCHANGED scn
 
-Containers == {"array-int", "array-float", "sample"}
+Containers == {"array-int", "array-uint", "array-float", "sample"}
 (* ---- start_end: scn = <<N, container, ns, ne>> *)
 SENext == \/ Pick(0, 0..4) \/ Pick(1, Containers) \/ Pick(2, -1..5) \/ Pick(3, -1..5)
           \/ Finish(4, StartEnd(scn[1], scn[3], scn[4]))
